@@ -22,7 +22,8 @@ func stringConsts(r *core.Run, rel, fn string) map[string]bool {
 		r.Fatal("anchor: %s.%s not found", rel, fn)
 		return out
 	}
-	ast.Inspect(fd.Body, func(n ast.Node) bool {
+	// the function and the same-package helpers it calls
+	ast.Inspect(core.TreeBody(pk, fd), func(n ast.Node) bool {
 		if e, ok := n.(ast.Expr); ok {
 			if s, ok := core.ConstString(pk.TypesInfo, e); ok {
 				out[s] = true
@@ -144,17 +145,22 @@ func namingConventions(r *core.Run) {
 	if fd != nil {
 		o := r.Add("R-CONST/naming", "role path parameter sigils", fd.Pos(), "{name} ↔ :name")
 		src := ""
-		ast.Inspect(fd.Body, func(n ast.Node) bool {
+		colon := false
+		ast.Inspect(core.TreeBody(pk, fd), func(n ast.Node) bool {
 			if as, ok := n.(*ast.AssignStmt); ok && len(as.Lhs) == 1 {
 				if _, isIdx := as.Lhs[0].(*ast.IndexExpr); isIdx {
 					src = core.ExprStr(as.Rhs[0])
+					if b, ok := core.Unparen(as.Rhs[0]).(*ast.BinaryExpr); ok {
+						if s, isC := core.ConstString(pk.TypesInfo, b.X); isC && s == ":" {
+							colon = true // what follows the colon is checked by R-PROV/pathnames
+						}
+					}
 				}
 			}
 			return true
 		})
 		c := stringConsts(r, "internal/structure", "buildMethod")
-		_ = pk
-		if src == `":" + jsonName` && c["/"] {
+		if colon && c["/"] {
 			o.Auto("`{field}` is replaced by \":\" + the field's JSON name, split/joined on '/'")
 		} else {
 			o.Fail("path parameter rewrite is %q", src)
@@ -216,7 +222,7 @@ func requestSplit(r *core.Run) {
 	o = r.Add("R-FLOW/split", "j5client.Method.fillRequest | path parameter names", fd.Pos(), "path parameter extraction")
 	c := stringConsts(r, "internal/j5client", "Method.fillRequest")
 	usesRegexp := false
-	ast.Inspect(fd.Body, func(n ast.Node) bool {
+	ast.Inspect(core.TreeBody(pk, fd), func(n ast.Node) bool {
 		if call, ok := n.(*ast.CallExpr); ok && strings.HasPrefix(core.CalleeName(info, call), "(*regexp.Regexp)") {
 			usesRegexp = true
 		}
